@@ -4,6 +4,7 @@
 //@ def quick STRN=6
 //@ def thorough STRN=11 DIGITS_ONLY=1
 //@ cbmc all --unwind 14 --unwinding-assertions
+//@ timeout quick=300 thorough=3000
 //@ entry h_str_texttobin
 //@ note W: complete for every string of length < STRN (all 16-bit units; null allowed), END-aligned at its NUL; loops fully unwound, unwinding assertions on; the thorough tier instead takes every string of up to 10 DECIMAL DIGITS (no other characters: the general 16-bit domain at this length does not finish), which covers the unsigned int boundary 4294967295 / 4294967296
 //@ note spec = XMLString.hpp: "leading and trailing whitespace is legal and will be ignored but the remainder must be all decimal digits"; the value is the value of the digit string; false for an empty/null string, a non-digit, or a value that does not fit unsigned int; one leading '+' (and the extra isspace characters VT/FF of strtoul) are tolerated by the implementation and allowed by this spec (xs:nonNegativeInteger allows the sign)
